@@ -4,11 +4,13 @@ CHECK_DEADLOCK FALSE
 CONSTANTS
  HonorsHost = FALSE
  SchemeBound = TRUE
+ FoldCase = FALSE
  StripOnRedirect = TRUE
  MaxFaults = 4
- Confs <- AllConfs
+ Confs <- SimConfs
  ChalKinds <- AllChal
  FaultKinds <- AllFaults
  RedirTo <- AllRedir
  TokReplies <- AllTok
  ForeignRealms <- TaRealm
+ LocTo <- AllLoc
